@@ -85,7 +85,10 @@ pub fn check(c: &Case) -> Outcome {
             if s2.status != Status::Success {
                 return Outcome::triv("reference-kappa-run-nonsuccess");
             }
-            if s.naccpt > 3 * s2.naccpt + 30 {
+            // the excited fast transient is resolved with steps growing geometrically from ~1/kappa: an additive
+            // 12 steps per decade of stiffness (observed at 1.6e6 cases: 319 steps at 1e10 vs 96 at 1e2)
+            let nlim = 3.0 * s2.naccpt as f64 + 30.0 + 12.0 * (c.lk - 2.0).max(0.0);
+            if s.naccpt as f64 > nlim {
                 return Outcome::viol(format!("{}: accepted steps grow with the stiffness ratio: {} at kappa=1e{:.1} vs {} at kappa=1e2 (rtol {:e}, analytic_jac={})", name, s.naccpt, c.lk, s2.naccpt, c.rtol, c.analytic_jac));
             }
             if s.nfev > 4 * s2.nfev + 200 {
@@ -94,7 +97,7 @@ pub fn check(c: &Case) -> Outcome {
             Outcome::pass(
                 format!("{}:{}", name, if matches!(c.spec, StiffSpec::Tri { .. }) { "tri" } else { "mixed" }),
                 kappa * c.t_len >= 1e4,
-                json!({"err_over_bound": emax / bound, "steps_ratio": s.naccpt as f64 / (3.0 * s2.naccpt as f64 + 30.0), "nfev_ratio": s.nfev as f64 / (4.0 * s2.nfev as f64 + 200.0), "lk": c.lk}),
+                json!({"err_over_bound": emax / bound, "steps_ratio": s.naccpt as f64 / nlim, "nfev_ratio": s.nfev as f64 / (4.0 * s2.nfev as f64 + 200.0), "lk": c.lk}),
             )
         }
         StiffSpec::Chain { .. } | StiffSpec::Robertson => {
@@ -229,7 +232,7 @@ pub fn run(ctx: &Ctx, known: &[Known]) -> Report {
     let stats = run_generated(ctx, "C14", "gen", &strategy, &check, cases, known);
     Report {
         id: "C14".into(),
-        rule: "cases = stiff linear problems with closed-form solutions in two families (triangular coupling: fast block with rates kappa^u_j, one equal to kappa, driving a slow block, kappa = 1e2..1e10; fully mixed basis K = S diag(kappa^u) S^-1, kappa <= 1e6, rtol >= 1e-6), n = 1..8, initial transients of O(1), both directions (reflected so that the problem stays stable), T = 0.5..12; linear kinetics chains with total-mass conservation (kappa to 1e8); Robertson to T = 10^U[0.5,5]; Van der Pol (mu = 10..1000) on its slow phase; Radau and BDF, rtol 1e-3..1e-9 (BDF 1e-8), analytic or finite-difference Jacobian. Oracle: Success; error vs exact <= 100*cond(S)*naccpt*tolscale + floor; the same problem at kappa and at 1e2: naccpt(kappa) <= 3 naccpt(1e2) + 30, nfev(kappa) <= 4 nfev(1e2) + 200; linear invariants to 1e-11*|w||y|*sqrt(steps) + 64 eps * flux * T (x1000 with the finite-difference Jacobian, which divides the right-hand side's rounding noise by its increment); Radau and BDF agree on Van der Pol. Non-trivial = kappa*T >= 1e4 (an explicit method would need thousands of steps), or a nonlinear problem. Distinct = distinct canonical JSON.".into(),
+        rule: "cases = stiff linear problems with closed-form solutions in two families (triangular coupling: fast block with rates kappa^u_j, one equal to kappa, driving a slow block, kappa = 1e2..1e10; fully mixed basis K = S diag(kappa^u) S^-1, kappa <= 1e6, rtol >= 1e-6), n = 1..8, initial transients of O(1), both directions (reflected so that the problem stays stable), T = 0.5..12; linear kinetics chains with total-mass conservation (kappa to 1e8); Robertson to T = 10^U[0.5,5]; Van der Pol (mu = 10..1000) on its slow phase; Radau and BDF, rtol 1e-3..1e-9 (BDF 1e-8), analytic or finite-difference Jacobian. Oracle: Success; error vs exact <= 100*cond(S)*naccpt*tolscale + floor; the same problem at kappa and at 1e2: naccpt(kappa) <= 3 naccpt(1e2) + 30 + 12 per decade of kappa above 1e2 (the excited transient is resolved with geometrically growing steps), nfev(kappa) <= 4 nfev(1e2) + 200; linear invariants to 1e-11*|w||y|*sqrt(steps) + 64 eps * flux * T (x1000 with the finite-difference Jacobian, which divides the right-hand side's rounding noise by its increment); Radau and BDF agree on Van der Pol. Non-trivial = kappa*T >= 1e4 (an explicit method would need thousands of steps), or a nonlinear problem. Distinct = distinct canonical JSON.".into(),
         assumptions: vec![
             "fully mixed basis restricted to kappa <= 1e6 and rtol >= 1e-6: beyond that the rounding noise kappa*eps of the right-hand side itself prevents the slow components from meeting the tolerance (conditioning of the evaluation, not a solver defect)".into(),
             "Van der Pol only on the slow manifold phase T <= 0.5 mu (contractive, so the two methods must agree to tolerance)".into(),
